@@ -106,6 +106,54 @@ theorem pool_free_store_inside_cell (p : Pool) (c e : Nat) (he : 8 ≤ e) :
   simp only [Pool.release, List.mem_singleton] at hev
   subst hev; simp only [Ev.Inside, Ev.lo, Ev.hi]; omega
 
+/-! ### slist.h on `next` pointers implements the list operations
+
+`Rep m head l`: following the `next` fields `m` from `head` visits exactly the
+addresses `l` (pairwise distinct, none is the head) and returns to `head`. -/
+
+/-- `pool_init` + `pool_engage` on pointers build the list of the model
+(`head` = any address outside the zone) -/
+theorem slist_engage_refines (e n head : Nat) (he : 0 < e) (hh : n * e ≤ head) (m : Links) :
+    Rep (engageLoopP e (n * e) head (n * e + 1) 0 (slistInit m head)) head
+      (Pool.init.engage (n * e) e).free :=
+  engageLoopP_rep e (n * e) head (n * e + 1) 0 _ [] (rep_init m head) (by simp) hh he
+
+/-- `pool_alloc` on pointers returns the same cell as the list model and
+leaves a representation of its free list -/
+theorem slist_alloc_refines (m : Links) (head : Nat) (p : Pool) (hr : Rep m head p.free) :
+    (poolAllocP m head).1 = p.alloc.1 ∧ Rep (poolAllocP m head).2 head p.alloc.2.free := by
+  unfold poolAllocP Pool.alloc
+  cases hf : p.free with
+  | nil =>
+    rw [hf] at hr
+    simp only [(rep_pop_nil hr).2, ↓reduceIte]
+    exact ⟨trivial, by rw [hf]; exact hr⟩
+  | cons c r =>
+    rw [hf] at hr
+    have hne : slistEmpty m head = false := by
+      cases h : slistEmpty m head with
+      | false => rfl
+      | true => exact absurd ((rep_empty_iff hr).1 h) (by simp)
+    simp only [hne, Bool.false_eq_true, ↓reduceIte]
+    obtain ⟨h1, h2⟩ := rep_pop_cons hr
+    rw [h1]; exact ⟨rfl, h2⟩
+
+/-- `pool_free` on pointers conses the cell, provided it is not already on the
+list (no double free) and is not the head -/
+theorem slist_free_refines (m : Links) (head c : Nat) (p : Pool) (hr : Rep m head p.free)
+    (hc : c ∉ p.free) (hne : c ≠ head) : Rep (slistAdd m c head) head (p.release c).1.free :=
+  rep_add hr hc hne
+
+/-- `slist_size` / `slist_in` walk exactly the list (they terminate within
+`length + 1` steps) -/
+theorem slist_size_in_refine (m : Links) (head x fuel : Nat) (p : Pool) (hr : Rep m head p.free)
+    (hf : p.free.length < fuel) :
+    slistSize m head fuel = p.avail ∧ slistIn m head x fuel = p.inFreelist x := by
+  obtain ⟨hc, _, hh⟩ := hr
+  refine ⟨?_, ?_⟩
+  · simp only [slistSize, Pool.avail]; rw [sizeLoop_chain hc hh hf]; omega
+  · simp only [slistIn, Pool.inFreelist]; exact inLoop_chain hc hh hf
+
 /-! ### igris::pool (after `fix: igris::pool::get() …`) -/
 
 /-- `room()` = `avail()` = capacity − live after every history of get/put,
